@@ -28,7 +28,10 @@ RULE = ("trunc: every prefix (each offset 0..len) of corpus programs from the si
         "breaks; overindent: valid programs with one line inserted after a complete statement (at any nesting depth, also right after a block, "
         "directly or after a blank / comment line) that is indented one or two steps deeper than that statement (or deeper than every line before it), with 4 spaces or with "
         "TABs throughout — expected: error 20 whose cursor is the first token of the inserted line, displayed with that line's number and "
-        "caret column 0 (generator ground truth); " + varinput.RULE_VARINPUT + "; " + errline.RULE_ERRLINE + ". Non-trivial = the input is not accepted (an error path ran) or has ≥ 3 lines.")
+        "caret column 0 (generator ground truth); afterinput: valid programs (corpus + six fixed shapes) whose exec block ends while still in its 输入 section — "
+        "a line indented deeper, or less, than an 输入 line inserted right after it (directly or after a blank / comment line), or the text cut "
+        "after the 输入 line (followed by nothing, line ends, blanks or a comment) — expected: error 20 at the first token of the inserted line "
+        "(caret 0) / at the end of the text (its line, caret = width of that line), generator ground truth; " + varinput.RULE_VARINPUT + "; " + errline.RULE_ERRLINE + ". Non-trivial = the input is not accepted (an error path ran) or has ≥ 3 lines.")
 ASSUMPTIONS = ["'promptly' is the harness watchdog's 2 s (a `timeout` answer is re-run alone twice before it counts: the machine may be busy)",
                "lone surrogates print as U+FFFD (Go's string conversion); the quoted-line check compares modulo that substitution"] + varinput.ASSUMPTIONS_VARINPUT + errline.ASSUMPTIONS_ERRLINE
 PARTIAL = ("termination, cursor bound, absence of panics and completeness are proved for the parser over ANY lexer meeting LexOK (Proofs/ParserHoare); "
@@ -213,6 +216,26 @@ def run(ctx):
     if ov:
         k = len(ov) // 2
         ctx.sample({'stream': 'overindent', 'source': _norm(ov[k][0]), 'go': go[k][:300], 'model': model[k][:300]})
+    # an exec block that ends while still in its 输入 section (over-indented / dedented line right after an 输入 line, 输入 line last in the
+    # text): error 20 at the first token of that line / at the end of the text (generator ground truth; repair 07aabbd)
+    bases = list(zip(canon, spans))
+    btk = ctx.run_go(['tokens ' + cps(s) for s in pc.INPUT_BASES], timeout_ms=4000)
+    bases += [(s, pc.token_spans(t)) for s, t in zip(pc.INPUT_BASES, btk)] * ctx.n(1, 30)
+    ai = []
+    for s, sp in bases:
+        ai += pc.after_input_line(rng, s, sp, ctx.n(2, 6))
+    go, model = check(ctx, 'afterinput', [t for t, _, _, _, _ in ai])
+    for (t, cur, ln, caret, kind), g_out in zip(ai, go):
+        f = g_out.split(' | ')
+        d = f[1].split(' ') if len(f) > 1 else []
+        ctx.count('afterinput:' + kind)
+        if f[0] != 'err syn 20 %d' % cur or len(d) < 5 or d[:3] != ['disp', 'ok', str(ln + 1)] or d[4] != str(caret):
+            ctx.violation('afterinput:ground-truth', 'compile ' + cps(t), g_out[:300],
+                          'err syn 20 %d | disp ok %d <that line> %d   (%s: the token that ended the 输入 section, or the end of the text)' % (cur, ln + 1, caret, kind))
+    for kind in ('over', 'dedent', 'last'):
+        ks = [i for i, a in enumerate(ai) if a[4] == kind]
+        if ks:
+            ctx.sample({'stream': 'afterinput:' + kind, 'source': _norm(ai[ks[0]][0]), 'go': go[ks[0]][:300], 'model': model[ks[0]][:300]})
     # one Interpreter object used for two programs in a row: what the second compiles to (tree or syntax error, code, line, caret)
     # is a function of its own text — whatever was compiled before it (longer, shorter, rejected)
     pool = [('输出 0\n' + s) for s in canon] + [('输出 0\n' + s) for s in rng.sample(cor, min(len(cor), ctx.n(150, 3000)))]
